@@ -35,12 +35,6 @@ impl ColData {
 			ColData::Trees(m) => m.keys().cloned().collect(),
 		}
 	}
-	pub fn max_count(&self) -> u64 {
-		match self {
-			ColData::Rc(m) => m.values().map(|v| v.1).max().unwrap_or(0),
-			_ => 1,
-		}
-	}
 }
 
 #[derive(Clone, Debug)]
